@@ -8,7 +8,7 @@
    [c] in environment [e]; [attempt_panic] is a reload during which a plugin's setup panics (Restart turns the
    panic into an error); [run] folds a history of attempts, contained panics and htpasswd-file rewrites.  All
    statements quantify over ALL configurations, states and histories. *)
-Require Import V.Lib V.C08_Model V.C08_Proofs.
+Require Import V.Lib V.C08_Model V.C08_Proofs V.C08_QuicProofs.
 Open Scope N_scope.
 
 (* ---- 1. a failed attempt never takes anything away (full, every mode, every well-formed state) ----
@@ -582,3 +582,75 @@ Theorem C08_overlap_refused_attempt_keeps_hooks_refuted :
   exists h inner, ov_hooks_steps h inner = 3 /\ ov_hooks_end h (ov_hooks_steps h inner) false = 1.
 Proof. exact overlap_hooks_refuted. Qed.
 Print Assumptions C08_overlap_refused_attempt_keeps_hooks_refuted.
+
+(* The packet-connection stage of startServers (QUIC flag on): every server opens a TCP listener and then a UDP
+   socket on the same address, and the attempt may fail BETWEEN the two (TCP port free, UDP port in use).  Whatever
+   the position of the failing server, whichever stage fails, whatever is inherited from the old instance: the
+   deferred clean-up closes the listener opened just before, the packet connections and the listeners of the
+   servers before it - both descriptor tables are EXACTLY what they were. *)
+Theorem C08_packet_stage_failure_closes_what_it_opened :
+  forall held old addrs t u t' u',
+  q_start_servers QcFull held old addrs [] t u = (false, (t', u')) -> t' = t /\ u' = u.
+Proof. exact packet_stage_failure_closes_what_it_opened. Qed.
+Print Assumptions C08_packet_stage_failure_closes_what_it_opened.
+Example C08_packet_stage_failure_closes_what_it_opened_nonvacuous :
+  q_start_servers QcFull true [QEph 1] [QEph 1; QEph 2; QUdpHeld] [] [QEph 1] [QEph 1] = (false, ([QEph 1], [QEph 1]))
+  /\ q_start_servers QcFull true [] [QEph 2; QTcpHeld] [] [] [] = (false, ([], [])).
+Proof. exact packet_stage_failure_closes_what_it_opened_nonvacuous_w. Qed.
+
+(* a refused attempt of ANY kind (load, validation, execution, API reload, SIGUSR1) in a process with the flag on
+   leaves the whole state - instance list, both descriptor tables, hooks - as it was *)
+Theorem C08_quic_refused_attempt_changes_nothing :
+  forall m id addrs on held st,
+  fst (q_attempt m id addrs on held st) = false -> snd (q_attempt m id addrs on held st) = st.
+Proof. exact quic_refused_attempt_changes_nothing. Qed.
+Print Assumptions C08_quic_refused_attempt_changes_nothing.
+Example C08_quic_refused_attempt_changes_nothing_nonvacuous :
+  let st := snd (q_attempt Load 1 [QEph 1] 1 true q0) in
+  fst (q_attempt Reload 2 [QEph 1; QUdpHeld] 2 true st) = false /\ fst (q_attempt Sigusr1 3 [QTcpHeld] 0 true st) = false
+  /\ fst (q_attempt Load 4 [QEph 2; QUdpHeld; QEph 3] 1 true st) = false.
+Proof. exact quic_refused_attempt_changes_nothing_nonvacuous_w. Qed.
+
+(* over ALL histories of refused attempts - the failure between Listen and ListenPacket included - the state is
+   the state: the next attempt, whatever it is, has the outcome and the effect it has without them ... *)
+Theorem C08_quic_attempt_after_refused_history :
+  forall ops held st m id addrs on,
+  q_all_refused held ops st ->
+  q_attempt m id addrs on (fst (q_final held ops st)) (snd (q_final held ops st)) = q_attempt m id addrs on held st.
+Proof. exact quic_attempt_after_refused_history. Qed.
+Print Assumptions C08_quic_attempt_after_refused_history.
+
+(* ... and a configuration whose addresses are free loads *)
+Theorem C08_quic_valid_loads_after_refused_history :
+  forall ops held st id addrs on,
+  q_all_refused held ops st -> (held = false \/ forallb q_is_eph addrs = true) ->
+  fst (q_attempt Load id addrs on (fst (q_final held ops st)) (snd (q_final held ops st))) = true.
+Proof. exact quic_valid_loads_after_refused_history. Qed.
+Print Assumptions C08_quic_valid_loads_after_refused_history.
+Example C08_quic_valid_loads_after_refused_history_nonvacuous :
+  q_all_refused true [QAttempt Load 1 [QUdpHeld] 1; QAttempt Load 2 [QEph 1; QTcpHeld] 0; QAttempt Reload 3 [QEph 1] 0] q0.
+Proof. exact quic_valid_loads_after_refused_history_nonvacuous_w. Qed.
+
+(* the clean-up with ln / pc re-declared inside the loop (seeded C08-m11): the listener of the server whose
+   ListenPacket failed stays open; it is the faithful clean-up on every call in which no ListenPacket fails, which
+   is why only the failure point between the two stages shows it *)
+Theorem C08_packet_stage_shadowed_cleanup_refuted :
+  exists held old addrs t u, q_start_servers QcShadow held old addrs [] t u = (false, ([QUdpHeld], [])) /\ t = [] /\ u = [].
+Proof. exact packet_stage_shadowed_cleanup_refuted. Qed.
+Print Assumptions C08_packet_stage_shadowed_cleanup_refuted.
+Theorem C08_packet_stage_shadowed_cleanup_same_without_packet_failure_partial :
+  forall held old addrs acc t u,
+  forallb (fun a => existsb (qaddr_eqb a) old || q_listen_packet held a) addrs = true ->
+  q_start_servers QcShadow held old addrs acc t u = q_start_servers QcFull held old addrs acc t u.
+Proof. exact packet_stage_shadowed_same_without_packet_failure. Qed.
+Print Assumptions C08_packet_stage_shadowed_cleanup_same_without_packet_failure_partial.
+Example C08_packet_stage_shadowed_cleanup_same_without_packet_failure_partial_nonvacuous :
+  forallb (fun a => existsb (qaddr_eqb a) [] || q_listen_packet true a) [QEph 1; QTcpHeld] = true.
+Proof. exact packet_stage_shadowed_cleanup_same_without_packet_failure_partial_nonvacuous_w. Qed.
+
+(* the code before the fix a443b2e (finding F-C08-8): ListenPacket handed back a typed nil, pc.Close() panicked
+   after ln.Close() and what was opened for the servers before the failing one stayed open *)
+Theorem C08_packet_stage_typed_nil_cleanup_refuted :
+  exists held old addrs t u, q_start_servers QcTypedNil held old addrs [] t u = (false, ([QEph 1], [QEph 1])) /\ t = [] /\ u = [].
+Proof. exact packet_stage_typed_nil_cleanup_refuted. Qed.
+Print Assumptions C08_packet_stage_typed_nil_cleanup_refuted.
